@@ -82,8 +82,8 @@ CLAIMS = {
     ),
     "C02": dict(
         category="other",
-        text="Both selection routines are proved statically for every input and every pivot sequence (partial correctness; Ord assumed a "
-             "lawful total order). SINGLE (R24): all return paths of get_from_sorted_mut are executed abstractly with partition_mut's "
+        text="Both selection routines are proved statically for every input and every pivot sequence (Ord assumed a lawful total order; "
+             "every recursive call is on a provably strictly shorter sub-view, so they terminate). SINGLE (R24): all return paths of get_from_sorted_mut are executed abstractly with partition_mut's "
              "contract (itself proved: R22/R18) and the induction hypothesis on the sub-view, relations between value symbols closed "
              "under transitivity; postcondition a[i] = r, everything before i ≤ r, everything after ≥ r. BULK (R25): the recursive "
              "divide-and-conquer is proved by representative-element abstract execution over (zone, array facts, universally quantified "
